@@ -16,7 +16,7 @@ type Solver struct {
 	in    io.WriteCloser
 	out   *bufio.Reader
 	stack []*Term           // asserted terms, one per push level
-	decl  []map[string]bool // variables declared per level (index 0 = base level)
+	decl  []map[string]int // variables declared per level (index 0 = base level) -> width
 	stats *Stats
 	bin   string
 	tmo   int
@@ -56,7 +56,7 @@ func NewSolver(bin string, timeoutMs int, st *Stats) (*Solver, error) {
 		return nil, err
 	}
 	s := &Solver{cmd: cmd, in: in, out: bufio.NewReaderSize(out, 1<<16), stats: st, bin: bin, tmo: timeoutMs}
-	s.decl = []map[string]bool{{}}
+	s.decl = []map[string]int{{}}
 	if strings.Contains(bin, "cvc5") {
 		s.send("(set-logic ALL)")
 	} else {
@@ -94,7 +94,7 @@ func (s *Solver) readLine() string {
 
 func (s *Solver) isDeclared(name string) bool {
 	for _, m := range s.decl {
-		if m[name] {
+		if _, ok := m[name]; ok {
 			return true
 		}
 	}
@@ -105,14 +105,14 @@ func (s *Solver) declareFor(vars []*Term) {
 	for _, v := range vars {
 		if !s.isDeclared(v.Name) {
 			s.send(fmt.Sprintf("(declare-const %s %s)", v.Name, sortOf(v.W)))
-			s.decl[len(s.decl)-1][v.Name] = true
+			s.decl[len(s.decl)-1][v.Name] = v.W
 		}
 	}
 }
 
 func (s *Solver) push(t *Term) {
 	s.send("(push 1)")
-	s.decl = append(s.decl, map[string]bool{})
+	s.decl = append(s.decl, map[string]int{})
 	txt, vars := SMT(t)
 	s.declareFor(vars)
 	s.send("(assert " + txt + ")")
@@ -306,4 +306,20 @@ func lastValue(pair string) uint64 {
 		return v
 	}
 	return 0
+}
+
+// Model returns the values of every declared variable in the current sat state.
+func (s *Solver) Model(tc *TermCtx) map[string]uint64 {
+	var vs []*Term
+	for _, m := range s.decl {
+		for name, w := range m {
+			vs = append(vs, tc.Var(name, w))
+		}
+	}
+	vals := s.Values(vs)
+	res := make(map[string]uint64, len(vals))
+	for t, v := range vals {
+		res[t.Name] = v
+	}
+	return res
 }
